@@ -1008,6 +1008,7 @@ func init() {
 			x.j.Params["sync_writes"] = true
 			o := crashOpts(x.dir, x.j)
 			o.NumMemtables = 5
+			o.ValueThreshold = 2400 // values stay inline: they are what fills the memtable
 			// the memtable's size decides when it rotates: skiplist tower heights must not be random
 			hn := 0
 			y.VerifHeightFn = func() int { hn++; return 1 + hn%3 }
